@@ -35,14 +35,14 @@ def main(tier):
     stats = dict(fragment_sets=0, fragments_min=10 ** 9, fragments_max=0, lsh_runs=0, lsh_pairs=0, identical_pairs_checked=0,
                  rows_gt_hashes_runs=0, batch_runs=0, truncated_runs=0, model_lsh=0, model_batch=0, bandkey_fragments=0,
                  exhaustive_pairs=0, cli_lsh_runs=0, big_sets=0, ratio_sets=0, tiny_sets=0, prefilter_pairs_both_orders=0, prefilter_classes={},
-                 ratio_pairs_by_batch={}, model_prefilter_cells=0, lsh_fallback_runs=0)
+                 ratio_pairs_by_batch={}, model_prefilter_cells=0, lsh_fallback_runs=0, docstring_copies={})
     if not ck.go_ok:
         ck.finish()
     import time
     t0 = time.time()
 
     def make_set(big):
-        texts, items = cc.gen_project(rng, n_bases=4 if big else rng.randint(2, 3), max_items=10 if big else rng.choice([4, 5, 6]))
+        texts, items = cc.gen_project(rng, n_bases=4 if big else rng.randint(2, 3), max_items=10 if big else rng.choice([4, 5, 6]), doc_p=0.4, docedit_p=0.6)
         cfg = dict(MinLines=3 if big else rng.choice([4, 5, 6]), MinNodes=4 if big else rng.choice([6, 8, 10]),
                    MaxEditDistance=rng.choice([0, 0, 50.0, 3.0]), ReduceBoilerplateSimilarity=rng.random() < 0.5, BoilerplateMultiplier=0.1,
                    SkipDocstrings=True, SimilarityThreshold=rng.choice([0, 0.65, 0.8]),
@@ -58,19 +58,20 @@ def main(tier):
             fam = lambda ks: "\n".join(["import os", ""] + sum([cc.try_function("load%d" % k, k) + ["", ""] for k in ks], [])) + "\n"
             files = [("ratio_front.py", fam([2, 6]))] + files + [("ratio_tail.py", fam([5, 2]))]
             texts = dict(files)
-        return dict(texts=texts, files=files, cfg=cfg, lsh=[rand_lsh(rng) for _ in range(6 if thorough else 4)], big=big, kind="big" if big else "project")
+        return dict(texts=texts, files=files, cfg=cfg, lsh=[rand_lsh(rng) for _ in range(6 if thorough else 4)], big=big, kind="big" if big else "project",
+                    items=items)
 
     def make_ratio_set(k):
         """The size-ratio / line-ratio lattice (clonecommon.gen_ratio_project) under default-like thresholds."""
-        files, meta = cc.gen_ratio_project(rng, pads=(k % 2 == 0), fillers=k % 3, per_file=None if k else 1)
+        files, meta = cc.gen_ratio_project(xr, pads=(k % 2 == 0), fillers=k % 3, per_file=None if k else 1)
         # 50 and 100 exceed the fragment count (one batch = the unbatched loop, exercised by the other sets)
         batch_sizes = [1, 2, 3, 7]
-        cfg = dict(MinLines=rng.choice([3, 5]), MinNodes=rng.choice([4, 5]), MaxEditDistance=rng.choice([0, 0, 50.0]),
-                   ReduceBoilerplateSimilarity=rng.random() < 0.5, BoilerplateMultiplier=0.1, SkipDocstrings=True,
-                   SimilarityThreshold=rng.choice([0, 0.65]), Type1Threshold=rng.choice([0.98, 0.85]), Type2Threshold=0.75, Type3Threshold=0.7,
-                   Type4Threshold=rng.choice([0.65, 0.5]), MaxClonePairs=10000, BatchSizeThreshold=rng.choice([50, 3, 2]),
-                   BatchSizeLarge=rng.choice([100, 7, 0]), BatchSizeSmall=rng.choice([50, 2, 0]), LargeProjectSize=rng.choice([500, 10, 0]))
-        return dict(texts=dict(files), files=files, cfg=cfg, lsh=[rand_lsh(rng) for _ in range(4 if thorough else 2)], big=False, kind="ratio", meta=meta,
+        cfg = dict(MinLines=xr.choice([3, 5]), MinNodes=xr.choice([4, 5]), MaxEditDistance=xr.choice([0, 0, 50.0]),
+                   ReduceBoilerplateSimilarity=xr.random() < 0.5, BoilerplateMultiplier=0.1, SkipDocstrings=True,
+                   SimilarityThreshold=xr.choice([0, 0.65]), Type1Threshold=xr.choice([0.98, 0.85]), Type2Threshold=0.75, Type3Threshold=0.7,
+                   Type4Threshold=xr.choice([0.65, 0.5]), MaxClonePairs=10000, BatchSizeThreshold=xr.choice([50, 3, 2]),
+                   BatchSizeLarge=xr.choice([100, 7, 0]), BatchSizeSmall=xr.choice([50, 2, 0]), LargeProjectSize=xr.choice([500, 10, 0]))
+        return dict(texts=dict(files), files=files, cfg=cfg, lsh=[rand_lsh(xr) for _ in range(4 if thorough else 2)], big=False, kind="ratio", meta=meta,
                     batch_sizes=batch_sizes)
 
     def make_tiny_set(n_frag):
@@ -78,11 +79,11 @@ def main(tier):
         src = "import os\n\n" + ("\n".join(cc.straight_function("only", 9)) + "\n" if n_frag else "value = 1\n")
         cfg = dict(MinLines=3, MinNodes=9 if n_frag else 4, MaxEditDistance=0, SkipDocstrings=True, SimilarityThreshold=0, Type1Threshold=0.85, Type2Threshold=0.75,
                    Type3Threshold=0.7, Type4Threshold=0.65, MaxClonePairs=10000, BatchSizeThreshold=50, BatchSizeLarge=0, BatchSizeSmall=0, LargeProjectSize=0)
-        return dict(texts={"only.py": src}, files=[("only.py", src)], cfg=cfg, lsh=[rand_lsh(rng) for _ in range(2)], big=False, kind="tiny")
+        return dict(texts={"only.py": src}, files=[("only.py", src)], cfg=cfg, lsh=[rand_lsh(xr) for _ in range(2)], big=False, kind="tiny")
 
     n_big = 8 if thorough else 1
     # big sets: 51..64 fragments so that the public entry point batches by itself (n > BatchSizeThreshold = 50)
-    cands = [make_set(True) for _ in range(8 * n_big)]
+    cands = [make_set(True) for _ in range(5 * n_big)]
     # fragment counts: one request per file (extraction is per file; this keeps the probe's pair comparisons inside single files)
     preqs = [(ci, cc.driver_req([f], s["cfg"], table="none")) for ci, s in enumerate(cands) for f in s["files"]]
     pres = [cc.norm(x) for x in lib.driver([r for _, r in preqs], timeout=1800)]
@@ -94,10 +95,12 @@ def main(tier):
             probe[ci]["frags"] += r["frags"]
     sized = sorted((((0 if 51 <= len(r.get("frags", [])) <= 70 else 1), abs(len(r.get("frags", [])) - 56), i) for i, r in enumerate(probe) if "error" not in r))
     sets = [cands[i] for _, _, i in sized[:n_big]]
+    sets += [make_set(False) for _ in range(n_sets - n_big)]
+    # additions draw from a side generator: the sets above stay what they were for a given VERIF_SEED
+    xr = cc.side_rng(rng)
     n_ratio = 6 if thorough else 2
     sets += [make_ratio_set(k) for k in range(n_ratio)]
     sets += [make_tiny_set(1), make_tiny_set(0)]
-    sets += [make_set(False) for _ in range(n_sets - n_big - 1)]
     reqs = [cc.driver_req(s["files"], s["cfg"], batch_sizes=[1, 7, 100] if s["big"] else s.get("batch_sizes", BATCH_SIZES), lsh=s["lsh"][:2] if s["big"] else s["lsh"],
                           table="upper" if (s["big"] or i % 2) else "full") for i, s in enumerate(sets)]
     if os.environ.get("C09_DUMP"):
@@ -129,6 +132,21 @@ def main(tier):
         truncated = len(exh) > maxp
         stats["truncated_runs"] += truncated
         replay = {"kind": "driver", "request": reqs[si]}
+
+        # ---------------- SkipDocstrings: a copy that differs in its docstring only is structurally identical (apted_tree.go isDocstring)
+        by_start = {(f["file"], f["start"]): i for i, f in enumerate(frags)}
+        bases = {it["base"]: it for it in s.get("items", []) if it["relation"] == "base"}
+        for it in s.get("items", []):
+            if it["relation"] not in ("docedit", "verbatim") or not it.get("doc"):
+                continue
+            a, b = by_start.get((bases[it["base"]]["path"], bases[it["base"]]["start"])), by_start.get((it["path"], it["start"]))
+            if a is None or b is None:
+                continue
+            stats["docstring_copies"][it["relation"]] = stats["docstring_copies"].get(it["relation"], 0) + 1
+            if cfg["SkipDocstrings"] and frags[a]["tree"] != frags[b]["tree"]:
+                ck.violation("with SkipDocstrings a copy that differs only in %s has a different tree: %s:%d vs %s:%d" % (
+                    "its docstring" if it["relation"] == "docedit" else "comments and blank lines", frags[a]["file"], frags[a]["start"], frags[b]["file"], frags[b]["start"]),
+                    dict(replay, frag_a=frags[a], frag_b=frags[b]))
 
         # ---------------- LSH: never invents, never loses identical fragments
         for lr in res["lsh"]:
